@@ -438,4 +438,14 @@ pub fn c11_router(ctx: &mut Ctx) {
         let (o, f) = rr::run_case(c, RrOpts { probe: true });
         match o { Outcome::Pass { .. } => Outcome::pass(rr_labels(&f), f.junk > 0 || f.big_over > 0), o => o }
     });
+    if ctx.failed() { return; }
+    // the same frame sequences while peers' sinks fail at poll_ready / start_send / poll_flush and
+    // whole connections go away: a peer that dies between its frame and the answer to it must not
+    // take the router (and with it every later registration on the topic) down
+    let g = RrGen { faults: true, ..g };
+    ctx.search("rr-frames-with-dying-peers", move || rr::case_strategy(g), ctx.tier.pick(30_000, 1_000_000), true, |c: &RrCase| {
+        crate::core::watchdog::tick();
+        let (o, f) = rr::run_case(c, RrOpts { probe: true });
+        match o { Outcome::Pass { .. } => Outcome::pass(rr_fault_labels(&f), f.faults_observed > 0), o => o }
+    });
 }
